@@ -79,6 +79,11 @@ def order_of(seq):
         key = kw.get("key")
         if inner == "identity" and key is not None and _is_none_key(key) and kw.get("reverse") in (None, ("const", False)):
             return "none-first-stable"
+        # key=isnonetype, reverse=True: True sorts first, and reverse keeps the original order of equal keys
+        if inner == "identity" and key == ("ref", f"{C.INSP}.isnonetype") and kw.get("reverse") == ("const", True):
+            return "none-first-stable"
+        if inner == "identity" and key is not None and key[0] == "lambda" and len(key[1]) == 1 and key[2] == ("call", ("ref", f"{C.INSP}.isnonetype"), (("param", key[1][0]),), ()) and kw.get("reverse") == ("const", True):
+            return "none-first-stable"
         return "unknown"
     if seq[0] in ("tuple", "list"):
         elts = seq[1]
@@ -108,10 +113,10 @@ def order_of(seq):
         inner = order_of(base)
         if inner is None:
             return None
+        if shape == [("all",)]:
+            return inner  # (*xs,) / [*xs] keep the order of xs
         if inner != "identity":
             return "unknown"
-        if shape == [("all",)]:
-            return "identity"
         if len(shape) == 2 and shape[0] == ("item", -1) and shape[1] == ("slice", (None, ("const", -1), None)):
             return "rotation"
         if len(shape) == 2 and shape[0][0] == "filter" and shape[1][0] == "filter":
@@ -174,11 +179,19 @@ class Slot:
     hint_keys: list = dataclasses.field(default_factory=list)  # dict slots: which forms of the hint are looked up (raw / evaluated)
 
 
-def method_return_terms(prog: Program, cls: ClassInfo, name: str) -> list[tuple]:
+def method_return_terms(prog: Program, cls: ClassInfo, name: str, args: tuple = (), kw: tuple = ()) -> list[tuple]:
+    """Return terms of self.<name>(args) with the method's parameters replaced by the arguments (a helper may be an
+    instance method reading self.t, or a staticmethod handed self.t explicitly — the terms come out the same)."""
     f = prog.lookup_method(cls, name)
     if f is None:
         return []
-    return [r for _, r in P.returns(P.paths_of(prog, f))]
+    static = any(d and d.endswith("staticmethod") for d in f.decorators)
+    names = list(f.params) if static else [n for n in f.params if n != "self"][:]
+    if not static and f.params and f.params[0] != "self":
+        names = list(f.params[1:])
+    sigma = dict(zip(names, args))
+    sigma.update({k: v for k, v in kw if k})
+    return [P.substitute(r, sigma) if sigma else r for _, r in P.returns(P.paths_of(prog, f))]
 
 
 def slots_of(prog: Program, cls: ClassInfo) -> dict[str, Slot]:
@@ -218,8 +231,8 @@ def _slot_from(prog, cls, attr, v, depth=0):
                 return Slot(attr, "list", pos, lk[0], v)
         return None
     # self.x = self._method()
-    if v[0] == "call" and v[1][0] == "attr" and v[1][1] == C.SELF and not v[2] and depth < 2:
-        terms = method_return_terms(prog, cls, v[1][2])
+    if v[0] == "call" and v[1][0] == "attr" and v[1][1] == C.SELF and depth < 2:
+        terms = method_return_terms(prog, cls, v[1][2], v[2], v[3])
         merged = None
         for tm in terms:
             s = _dict_slot(attr, tm)
